@@ -335,6 +335,21 @@ func runC16(o *hx.Out, r *hx.Rand, thorough bool) {
 			reg = grpchan.WithInterceptor(reg, ui, sti)
 		}
 		reg.RegisterService(base, svc)
+		if after := descSnapshot(base); after != before {
+			o.Violate("registering through WithInterceptor views modified the description it was given",
+				map[string]interface{}{"carrier": "registry", "svc": svcName, "views_0both_1unary_2stream": masks}, after, before)
+		}
+		// ... and the caller's description still dispatches to the bare handler: no interceptor of the views runs
+		l.take()
+		if _, e0 := base.Methods[0].Handler(svc, withVal(context.Background(), 0), func(m interface{}) error { m.(*hx.Msg).Count = 1; return nil }, nil); e0 != nil || len(l.take()) != 1 {
+			o.Violate("the caller's own description runs interceptors after it was registered through WithInterceptor views",
+				map[string]interface{}{"carrier": "registry", "svc": svcName, "views_0both_1unary_2stream": masks}, fmt.Sprint(e0), "only the handler")
+		}
+		l.take()
+		if e0 := base.Streams[si].Handler(svc, fakeSS{ctx: withVal(context.Background(), 0)}); e0 != nil || len(l.take()) != 1 {
+			o.Violate("the caller's own description runs stream interceptors after it was registered through WithInterceptor views",
+				map[string]interface{}{"carrier": "registry", "svc": svcName, "views_0both_1unary_2stream": masks, "stream": kind}, fmt.Sprint(e0), "only the handler")
+		}
 		rd, _ := hm.QueryService(svcName)
 		l.take()
 		resp, err = rd.Methods[0].Handler(svc, withVal(context.Background(), ctx0), func(m interface{}) error { m.(*hx.Msg).Count = int32(req); return nil }, tu)
@@ -406,6 +421,23 @@ func runC16(o *hx.Out, r *hx.Rand, thorough bool) {
 					return err
 				}
 			}
+		}
+		// another service on the same channel has streams of the same names (with other streaming flags) and is
+		// called first: what the interceptor is told about THIS call is this call's method
+		{
+			od := &grpc.ServiceDesc{ServiceName: "other." + svcName, HandlerType: base.HandlerType}
+			for _, sd := range base.Streams {
+				od.Streams = append(od.Streams, grpc.StreamDesc{StreamName: sd.StreamName, ClientStreams: !sd.ClientStreams, ServerStreams: !sd.ServerStreams,
+					Handler: func(srv interface{}, ss grpc.ServerStream) error { return nil }})
+			}
+			ipc.RegisterService(od, svc)
+			if cs0, e0 := ipc.NewStream(context.Background(), &grpc.StreamDesc{ClientStreams: true, ServerStreams: true}, "/other."+svcName+"/"+kind); e0 == nil {
+				cs0.CloseSend()
+				for cs0.RecvMsg(&hx.Msg{}) == nil {
+				}
+				runtime.KeepAlive(cs0)
+			}
+			l.take()
 		}
 		err = runStream(ipc)
 		desc4 := map[string]interface{}{"carrier": "inprocgrpc", "svc": svcName, "stream": kind, "transport": transport, "decor_innermost_first": decor}
